@@ -9,6 +9,7 @@
 package main
 
 import (
+	"bytes"
 	"crypto/sha256"
 	"encoding/hex"
 	"encoding/json"
@@ -80,6 +81,25 @@ func buildWorker(extraArgs ...string) string {
 func buildWorkerV() (string, int) {
 	re := redirectImports("crypto/rand", "verifshim/vrand", "rand")
 	return buildWorkerOv("worker_v", writeOverlay(re)), len(re)
+}
+
+// buildWorkerH builds the worker for the history engine: the package's sync and
+// sync/atomic imports are redirected to the shims (no scheduling points are
+// inserted), so that pooled objects are deterministic and visible to the state
+// fingerprint.
+func buildWorkerH() string {
+	re := redirectImports("sync", "verifshim/vsync", "sync")
+	for k, v := range redirectImports("sync/atomic", "verifshim/vatomic", "atomic") {
+		if prev, dup := re[k]; dup {
+			// a file importing both: redirect the second import inside the first copy
+			data, _ := os.ReadFile(prev)
+			data = []byte(strings.Replace(string(data), `"sync/atomic"`, `atomic "verifshim/vatomic"`, 1))
+			os.WriteFile(prev, data, 0644)
+			continue
+		}
+		re[k] = v
+	}
+	return buildWorkerOv("worker_hist", writeOverlay(re))
 }
 
 func buildWorkerOv(name, overlay string, extraArgs ...string) string {
@@ -256,13 +276,28 @@ func runWorkerCheck(prop, tier string) int {
 	t0 := time.Now()
 	w := buildWorker()
 	resFile := filepath.Join(scratch, "result.json")
-	cmd := exec.Command(w, "-prop", prop, "-tier", tier, "-verif", verifDir, "-out", resFile, "-seed", strconv.FormatInt(seed(), 10))
-	cmd.Stdout = os.Stderr
-	cmd.Stderr = os.Stderr
-	cmd.Env = append(os.Environ(), "VERIF_SCRATCH_DIR="+scratch, "VERIF_REPO="+repoDir)
-	if err := cmd.Run(); err != nil {
+	run := func(extra ...string) (error, string) {
+		args := append([]string{"-prop", prop, "-tier", tier, "-verif", verifDir, "-out", resFile, "-seed", strconv.FormatInt(seed(), 10)}, extra...)
+		cmd := exec.Command(w, args...)
+		var stderr bytes.Buffer
+		cmd.Stdout = os.Stderr
+		cmd.Stderr = &stderr
+		cmd.Env = append(os.Environ(), "VERIF_SCRATCH_DIR="+scratch, "VERIF_REPO="+repoDir)
+		err := cmd.Run()
+		return err, stderr.String()
+	}
+	err, stderr := run()
+	if err != nil && strings.Contains(stderr, "fatal error: concurrent map") {
+		// the code under test is not safe for concurrent use (C12's business) and killed the
+		// parallel evaluation: evaluate this property's inputs sequentially instead
+		fmt.Fprintln(os.Stderr, "vcheck: the package crashed under parallel evaluation (concurrent map access); re-running sequentially")
+		err, stderr = run("-ncpu", "1")
+	}
+	if err != nil {
+		os.Stderr.WriteString(lastLinesN(stderr, 30))
 		die("worker failed: %v", err)
 	}
+	os.Stderr.WriteString(stderr)
 	var r Result
 	data, err := os.ReadFile(resFile)
 	if err != nil {
@@ -319,15 +354,16 @@ func main() {
 			}
 		case "warm":
 			buildWorker()
+			buildWorkerH()
 			ov, _ := instrumentPackage(false)
-			w := buildWorkerOv("worker_sched", writeOverlay(ov))
+			buildWorkerOv("worker_sched", writeOverlay(ov))
 			ovd, _ := instrumentPackage(true)
 			buildWorkerOv("worker_dense", writeOverlay(ovd))
 			buildWorkerV()
 			racePass(nil, false, newHistResult("C12", "quick"))
 			if len(os.Args) > 2 {
 				// keep a copy of the instrumented worker for manual experiments
-				data, _ := os.ReadFile(w)
+				data, _ := os.ReadFile(filepath.Join(scratch, "worker"))
 				os.WriteFile(os.Args[2], data, 0755)
 				for _, f := range []string{"instr_lang.go", "instr_entropy.go", "zz_verif_sites_gen.go"} {
 					if d, err := os.ReadFile(filepath.Join(scratch, f)); err == nil {
@@ -374,6 +410,14 @@ func replay(path string) int {
 }
 
 var specialReplay = map[string]func(path string) int{}
+
+func lastLinesN(s string, n int) string {
+	l := strings.Split(s, "\n")
+	if len(l) > n {
+		l = l[len(l)-n:]
+	}
+	return strings.Join(l, "\n")
+}
 
 func readFile(p string) ([]byte, error) { return os.ReadFile(p) }
 
